@@ -898,6 +898,9 @@ def _factorize_single(by, expect, *, sort: bool, reindex: bool) -> tuple[pd.Inde
         # this is important in shared-memory parallelism with dask
         # TODO: figure out how to avoid this
         idx = flat.copy()
+        if idx.dtype.kind == "u":
+            # room for the -1 sentinel
+            idx = idx.astype(np.int64)
         found_groups = cast(pd.Index, expect)
         # TODO: fix by using masked integers
         if len(expect) > 0:
